@@ -488,36 +488,527 @@ class RemDupValues(RemDup):
     coq = "rem_dup_values"
 
 
-ENTRIES = [Match(), MatchMulti(), Unique(), UniqueValues(), RemDup(), RemDupValues()]
+
+# ----------------------------------------------------------------------------
+# round 2: argument forms, mixed kinds, empty arrays, complete return values, omitted keywords
+# ----------------------------------------------------------------------------
+
+NATIVE_KINDS = ("i8", "f8", "S", "U")          # kinds a python list / python scalar turns into
+NUM_MIXES = [("i8", "f8"), ("f8", "i8"), ("i4", "i8"), ("i8", "i4"), ("u1", "i8"), ("i8", "u1"), ("u8", "i8"), ("i8", "u8"),
+             ("f4", "f8"), ("f8", "f4"), ("i2", "f4"), ("u4", "i2"), ("i1", "u8"), ("u2", "f8")]
+TWO53 = 2 ** 53
+
+
+def mixed_float(k1, k2):
+    return (k1 in FLOAT_KINDS) or (k2 in FLOAT_KINDS)
+
+
+def mkey(kind, v, as_float):
+    """value of a mixed numeric pair as the model sees it: the common embedding of both sides (exact: every integer
+    of such a pair is within +-2^53, every f4 value is a binary64)"""
+    if kind in INT_KINDS:
+        return fkey(float(int(v))) if as_float else int(v)
+    return fkey(float.fromhex(v))
+
+
+def gen_mixed_value(r, kind):
+    if kind in INT_KINDS:
+        lo, hi = INT_KINDS[kind]
+        lo, hi = max(lo, -TWO53), min(hi, TWO53)
+        c = r.choice(["small", "small", "edge", "any"])
+        if c == "small":
+            return r.randrange(max(lo, -5), min(hi, 9) + 1)
+        if c == "edge":
+            return min(hi, max(lo, r.choice([lo, hi, 0, 255, 256, 2**31, -2**31, 2**32 + 1, 65535, 65536, 127, 128, -128]) + r.randrange(-2, 3)))
+        return r.randrange(lo, hi + 1)
+    import numpy as np
+    x = r.choice([float(r.randrange(-5, 10)), r.randrange(-10, 20) / 2.0, float(r.choice([255, 256, 65536, 2**31, 2**32 + 1, 2.0**53, -2.0**53])),
+                  r.uniform(-3, 3), float("inf"), -float("inf"), 0.1, -0.0])
+    return float(np.float32(x) if kind == "f4" else x).hex()
+
+
+def fits(kind, k):
+    """does the embedded integer value k exist in `kind`"""
+    if kind in INT_KINDS:
+        return INT_KINDS[kind][0] <= k <= INT_KINDS[kind][1]
+    return True
+
+
+def gen_mixed_numeric_case(r):
+    k1, k2 = r.choice(NUM_MIXES)
+    af = mixed_float(k1, k2)
+    n1, n2 = r.randrange(1, 8), r.randrange(1, 9)
+    pool1 = {}
+    for _ in range(60):
+        v = gen_mixed_value(r, k1)
+        pool1.setdefault(mkey(k1, v, af), v)
+        if len(pool1) >= n1:
+            break
+    a1 = list(pool1.values())
+    r.shuffle(a1)
+    a2 = []
+    for _ in range(n2):
+        if r.random() < 0.55:
+            v = r.choice(a1)
+            # the same VALUE spelled in the other kind, when it exists there
+            if k2 in INT_KINDS:
+                x = float.fromhex(v) if k1 in FLOAT_KINDS else int(v)
+                if x == x and abs(x) != float("inf") and float(x).is_integer() and fits(k2, int(x)):
+                    a2.append(int(x))
+                    continue
+            else:
+                import numpy as np
+                x = float(int(v)) if k1 in INT_KINDS else float.fromhex(v)
+                y = float(np.float32(x)) if k2 == "f4" else x
+                if y == x:
+                    a2.append(float(y).hex())
+                    continue
+        a2.append(gen_mixed_value(r, k2))
+    presorted = r.choice([False, False, True, None])
+    if presorted:
+        a1.sort(key=lambda v: mkey(k1, v, af))
+    return {"kind1": k1, "kind2": k2, "a1": a1, "a2": a2, "presorted": presorted, "form1": "array", "form2": "array",
+            "multi": r.random() < 0.3, "family": "mixed-%s" % ("int-float" if af and not (k1 in FLOAT_KINDS and k2 in FLOAT_KINDS)
+                                                                  else ("float-widths" if af else "int-widths"))}
+
+
+ASCII = [32, 48, 65, 97, 98, 122, 126]
+
+
+def gen_bytes_unicode_case(r):
+    k1, k2 = r.choice([("U", "S"), ("S", "U")])
+    pool = gen_pool(r, "S", "small", 6)
+    pool = [[c for c in v if c < 128] for v in pool] + [[r.choice(ASCII) for _ in range(r.randrange(0, 4))] for _ in range(3)]
+    uniq = {}
+    for v in pool:
+        uniq.setdefault(tuple(v), v)
+    pool = list(uniq.values())
+    n1 = r.randrange(1, max(2, len(pool)))
+    a1 = r.sample(pool, min(n1, len(pool)))
+    a2 = [r.choice(pool) for _ in range(r.randrange(1, 7))]        # the same SPELLINGS in the other string kind
+    presorted = r.choice([False, True, None])
+    if presorted:
+        a1.sort()
+    return {"kind1": k1, "kind2": k2, "a1": a1, "a2": a2, "presorted": presorted, "form1": r.choice(["array", "array", "list"]),
+            "form2": r.choice(["array", "list"]), "multi": r.random() < 0.3, "family": "mixed-bytes-unicode"}
+
+
+def gen_forms_case(r):
+    """one kind, every way of spelling the arguments: array, python list, python / numpy scalar, 0-d array; keyword omitted"""
+    c = gen_match_case(r, 7, force=r.choice(["none", "some", "some", "all", "dups1"]))
+    k = c["kind"]
+    forms = ["array", "zerod", "npscalar"] + (["list", "pyscalar"] if k in NATIVE_KINDS else [])
+    f1, f2 = r.choice(forms), r.choice(forms)
+    a1, a2 = c["a1"], c["a2"]
+    if f1 in ("zerod", "npscalar", "pyscalar"):
+        a1 = a1[:1]
+    if f2 in ("zerod", "npscalar", "pyscalar"):
+        a2 = [r.choice(a1 + a2)]
+    pres = r.choice([c["presorted"], c["presorted"], None]) if not c["presorted"] else True
+    return {"kind1": k, "kind2": k, "a1": a1, "a2": a2, "presorted": pres, "form1": f1, "form2": f2,
+            "multi": r.random() < 0.3, "family": "forms/%s+%s%s" % (f1, f2, "/default" if pres is None else "")}
+
+
+def gen_empty_case(r):
+    k = r.choice(["i8", "f8", "S", "U", "u1", "i4"])
+    which = r.choice(["second", "second", "first", "both"])
+    pool = gen_pool(r, k, "small", 4) or [gen_value(r, k, "large")]
+    a1 = [] if which in ("first", "both") else r.sample(pool, r.randrange(1, len(pool) + 1))
+    a2 = [] if which in ("second", "both") else [r.choice(pool) for _ in range(r.randrange(1, 4))]
+    pres = r.choice([False, True, None])
+    if pres:
+        a1 = sorted(a1, key=lambda v: key(k, v))
+    return {"kind1": k, "kind2": k, "a1": a1, "a2": a2, "presorted": pres, "form1": "array", "form2": "array",
+            "multi": r.random() < 0.4, "family": "empty-" + which + ("/string" if is_str(k) else "/number")}
+
+
+def spell(kind, vals, form):
+    import numpy as np
+    if form == "array":
+        return to_np(kind, vals)
+    if form == "list":
+        return to_np(kind, vals).tolist() if vals else []
+    if form == "zerod":
+        return np.array(to_np(kind, vals[:1])[0])
+    return to_scalar(kind, vals[0], form == "pyscalar")
+
+
+class MatchForms(Entry):
+    """match / match_multi as called: argument forms, mixed kinds, empty arrays, presorted= omitted"""
+    name = "match_forms"
+
+    def cases(self, ctx, round=0):
+        r = ctx.rng
+        h = lambda x: float(x).hex()  # noqa
+        cs = []
+        if round == 0:
+            base = {"presorted": False, "form1": "array", "form2": "array", "multi": False}
+            hand = [
+                {"kind1": "i8", "kind2": "f8", "a1": [3, 1, 2], "a2": [h(2.0), h(2.5), h(1.0), h(7.0), h(-1.0)], "family": "hand-mixed"},
+                {"kind1": "f8", "kind2": "i8", "a1": [h(3.0), h(1.5), h(2.0)], "a2": [2, 3, 1, 7, -1], "family": "hand-mixed"},
+                {"kind1": "i4", "kind2": "i8", "a1": [1, 2], "a2": [2**32 + 1, 2, 2**32 + 2], "family": "hand-mixed"},
+                {"kind1": "u1", "kind2": "i8", "a1": [1, 255], "a2": [257, 255, -1, 1, 511], "family": "hand-mixed"},
+                {"kind1": "i1", "kind2": "u8", "a1": [-1, 5], "a2": [255, 5, 2**53], "family": "hand-mixed"},
+                {"kind1": "f4", "kind2": "f8", "a1": [h(0.10000000149011612), h(0.5)], "a2": [h(0.1), h(0.5), h(0.10000000149011612)], "family": "hand-mixed"},
+                {"kind1": "U", "kind2": "S", "a1": [[97], [98]], "a2": [[97], [99]], "family": "hand-mixed"},
+                {"kind1": "S", "kind2": "U", "a1": [[97], [98]], "a2": [[97], [99], [98]], "presorted": True, "family": "hand-mixed"},
+                {"kind1": "i8", "kind2": "i8", "a1": [3, 1, 2], "a2": [], "family": "hand-empty"},
+                {"kind1": "U", "kind2": "U", "a1": [[98], [97]], "a2": [], "family": "hand-empty"},
+                {"kind1": "S", "kind2": "S", "a1": [[98], [97]], "a2": [], "multi": True, "family": "hand-empty"},
+                {"kind1": "i8", "kind2": "i8", "a1": [], "a2": [1], "family": "hand-empty"},
+                {"kind1": "i8", "kind2": "i8", "a1": [], "a2": [], "family": "hand-empty"},
+                {"kind1": "i8", "kind2": "i8", "a1": [3], "a2": [3, 4, 3], "form1": "zerod", "family": "hand-forms"},
+                {"kind1": "U", "kind2": "U", "a1": [[97, 98]], "a2": [[97, 98], [97, 98, 99]], "form1": "pyscalar", "family": "hand-forms"},
+                {"kind1": "S", "kind2": "S", "a1": [[97, 98]], "a2": [[97, 98], [97, 98, 99]], "form1": "pyscalar", "form2": "list", "family": "hand-forms"},
+                {"kind1": "i8", "kind2": "i8", "a1": [3, 1, 2], "a2": [2, 2, 9], "form1": "list", "form2": "list", "presorted": None, "family": "hand-forms"},
+                {"kind1": "i8", "kind2": "i8", "a1": [3, 1, 2], "a2": [2], "form2": "pyscalar", "presorted": None, "multi": True, "family": "hand-forms"},
+                {"kind1": "f8", "kind2": "f8", "a1": [h(1.5)], "a2": [h(1.5)], "form1": "zerod", "form2": "zerod", "presorted": True, "family": "hand-forms"},
+            ]
+            for c in hand:
+                cs.append(dict(base, **c))
+        n = ctx.n(90, 900) if round == 0 else ctx.n(60, 300)
+        for _ in range(n):
+            cs.append(gen_mixed_numeric_case(r))
+        for _ in range(n // 2):
+            cs.append(gen_bytes_unicode_case(r))
+        for _ in range(n):
+            cs.append(gen_forms_case(r))
+        for _ in range(n // 3):
+            cs.append(gen_empty_case(r))
+        return cs
+
+    def impl(self, c):
+        import esutil.numpy_util as nu
+        fn = nu.match_multi if c["multi"] else nu.match
+
+        def f():
+            x1 = spell(c["kind1"], c["a1"], c["form1"])
+            x2 = spell(c["kind2"], c["a2"], c["form2"])
+            m1, m2 = fn(x1, x2) if c["presorted"] is None else fn(x1, x2, presorted=c["presorted"])
+            return [[int(i) for i in m1], [int(i) for i in m2]]
+        return core.guarded(f)
+
+    def _coq_arrays(self, c):
+        k1, k2 = c["kind1"], c["kind2"]
+        if is_str(k1) and is_str(k2):
+            if k1 == k2:
+                return "vs", cvals(k1, c["a1"]), cvals(k2, c["a2"])
+            tag = lambda k, v: "(%s, %s)" % (cbool(k == "U"), clist(list(v), cz))   # noqa
+            return ("vt", "[" + "; ".join(tag(k1, v) for v in c["a1"]) + "]", "[" + "; ".join(tag(k2, v) for v in c["a2"]) + "]")
+        if k1 == k2:
+            return "vz", cvals(k1, c["a1"]), cvals(k2, c["a2"])
+        af = mixed_float(k1, k2)
+        return ("vz", clist([mkey(k1, v, af) for v in c["a1"]], cz), clist([mkey(k2, v, af) for v in c["a2"]], cz))
+
+    def term(self, c, out):
+        px, t1, t2 = self._coq_arrays(c)
+        return "%s_matchx %s %s %s %s %s" % (px, cbool(bool(c["presorted"])), cbool(c["multi"]), t1, t2,
+                                             cres(out, lambda o: "(%s, %s)" % (cnats(o[0]), cnats(o[1]))))
+
+    def nontrivial(self, c, out):
+        # a mixed pair / a non-array form / an omitted keyword in which something matches and something does not
+        if not c["a1"] or not c["a2"]:
+            return False
+        special = c["kind1"] != c["kind2"] or c["form1"] != "array" or c["form2"] != "array" or c["presorted"] is None
+        if not special or out[0] != "ok":
+            return False
+        if is_str(c["kind1"]) and is_str(c["kind2"]) and c["kind1"] != c["kind2"]:
+            return len(c["a2"]) >= 2 and any(tuple(v) in set(map(tuple, c["a1"])) for v in c["a2"])   # equal spelling, other kind
+        return 0 < len(out[1][1]) < len(c["a2"]) or (len(c["a2"]) == 1 and len(c["a1"]) >= 1)
+
+    def show(self, c):
+        px, t1, t2 = self._coq_arrays(c)
+        o = {"vs": "lex_ltb lex_eqb true", "vz": "zltb zeqb false", "vt": "tag_ltb tag_eqb true"}[px]
+        return "show_match %s %s %s %s %s" % (o, cbool(bool(c["presorted"])), cbool(c["multi"]), t1, t2)
+
+
+FLAG_STYLES = ["int-ties", "int-wide", "float", "constant", "increasing", "decreasing", "bool", "u1", "i1-neg", "plateau"]
+
+
+def gen_flags2(r, n):
+    """flags with their numpy dtype: -> (dtype, values as python ints / float.hex())"""
+    st = r.choice(FLAG_STYLES)
+    if st == "bool":
+        return "?", [r.randrange(0, 2) for _ in range(n)]
+    if st == "u1":
+        return "u1", [r.choice([0, 1, 254, 255, 128]) for _ in range(n)]
+    if st == "i1-neg":
+        return "i1", [r.choice([-128, -1, 0, 1, 127]) for _ in range(n)]
+    if st == "plateau":          # several indices share the largest flag: the tie rule decides
+        return "i8", [r.choice([3, 3, 3, 1]) for _ in range(n)]
+    fl = gen_flags(r, n) if st in ("int-ties", "int-wide", "float", "constant", "increasing", "decreasing") else [0] * n
+    return ("f8" if any(isinstance(f, str) for f in fl) else "i8"), fl
+
+
+def flags_np2(dtype, flags):
+    import numpy as np
+    if dtype == "f8":
+        return np.array([float.fromhex(f) if isinstance(f, str) else float(f) for f in flags], dtype="f8")
+    return np.array([int(f) for f in flags], dtype=dtype)
+
+
+class UniqueCall(Entry):
+    """unique(arr, values=) with its complete return value; 0-d arrays; values= omitted"""
+    name = "unique_call"
+
+    def cases(self, ctx, round=0):
+        r = ctx.rng
+        cs = []
+        if round == 0:
+            for a, v, z in (([5, 1, 5], True, False), ([5, 1, 5], None, False), ([7], False, True), ([7], True, True), ([7], None, False),
+                            ([2, 2, 1, 1, 3, 3], True, False), ([], True, False)):
+                cs.append({"kind": "i8", "a": a, "values": v, "zero_d": z, "family": "hand"})
+            cs.append({"kind": "U", "a": [[98], [97], [98]], "values": True, "zero_d": False, "family": "hand"})
+            cs.append({"kind": "S", "a": [[98]], "values": True, "zero_d": True, "family": "hand"})
+        for _ in range(ctx.n(200, 2000) if round == 0 else ctx.n(100, 500)):
+            kind, a, fam = gen_dedup_array(r, ctx.n(10, 30))
+            z = r.random() < 0.08
+            cs.append({"kind": kind, "a": a[:1] if z else a, "values": r.choice([True, True, False, None]), "zero_d": z,
+                       "family": ("zero-d/" if z else "") + fam})
+        return cs
+
+    def _arr(self, c):
+        import numpy as np
+        arr = to_np(c["kind"], c["a"])
+        return np.array(arr[0]) if c["zero_d"] else arr
+
+    def impl(self, c):
+        import numpy as np
+        import esutil.numpy_util as nu
+        arr = self._arr(c)
+        s = [int(i) for i in np.atleast_1d(arr.argsort())]
+
+        def f():
+            res = nu.unique(arr) if c["values"] is None else nu.unique(arr, values=c["values"])
+            res = np.atleast_1d(res)
+            is_vals = bool(c["values"]) if arr.dtype == np.dtype("i8") else (res.dtype == arr.dtype and res.dtype != np.dtype("i8"))
+            return {"vals": from_np(c["kind"], res)} if is_vals else {"idx": [int(i) for i in res]}
+        return {"argsort": s, "result": core.guarded(f)}
+
+    def term(self, c, out):
+        k = c["kind"]
+        pr = lambda o: ("(UVals %s)" % cvals(k, o["vals"])) if "vals" in o else ("(UIdx %s)" % cnats(o["idx"]))   # noqa
+        return "%s_unique_call %s %s %s %s %s" % (pfx(k), cbool(c["zero_d"]), cnats(out["argsort"]), cvals(k, c["a"]),
+                                                  cbool(bool(c["values"])), cres(out["result"], pr))
+
+    def nontrivial(self, c, out):
+        return (not c["zero_d"]) and _repeated_not_first(c["kind"], c["a"])
+
+    def show(self, c):
+        import numpy as np
+        k = c["kind"]
+        o = "lex_ltb lex_eqb" if is_str(k) else "zltb zeqb"
+        s = [int(i) for i in np.atleast_1d(self._arr(c).argsort())]
+        return "show_calls %s %s %s %s %s %s" % (o, cbool(c.get("zero_d", False)), cnats(s), cvals(k, c["a"]),
+                                                clist(flag_keys2(c), cz), cbool(bool(c["values"])))
+
+
+def flag_keys2(c):
+    if "flag" not in c:
+        return [0] * len(c["a"])
+    return [fkey(float.fromhex(f)) if isinstance(f, str) else (fkey(float(f)) if c.get("fdtype") == "f8" else int(f)) for f in c["flag"]]
+
+
+class RemDupCall(UniqueCall):
+    """rem_dup(arr, flag, values=) with its complete return value: python scalar for n == 1 (also 0-d), values; flag dtypes"""
+    name = "rem_dup_call"
+
+    def cases(self, ctx, round=0):
+        r = ctx.rng
+        cs = []
+        if round == 0:
+            hand = [([5], [1], "i8", True, False), ([5], [1], "i8", None, False), ([5], [1], "i8", False, True), ([5], [1], "i8", True, True),
+                    ([5, 1, 5, 5], [3, 2, 3, 1], "i8", True, False), ([5, 1, 5, 5], [1, 0, 1, 1], "?", False, False),
+                    ([2, 2, 2, 2], [0, 5, 5, 1], "i8", None, False), ([1, 1, 2], [1, 2, 3, 4], "i8", False, False),
+                    ([1, 1, 2], [1, 2], "i8", False, False), ([], [], "i8", True, False), ([4, 4], [255, 254], "u1", True, False)]
+            for a, fl, dt, v, z in hand:
+                cs.append({"kind": "i8", "a": a, "flag": fl, "fdtype": dt, "values": v, "zero_d": z, "family": "hand"})
+        for _ in range(ctx.n(200, 2000) if round == 0 else ctx.n(100, 500)):
+            kind, a, fam = gen_dedup_array(r, ctx.n(10, 30))
+            z = r.random() < 0.06
+            if z:
+                a = a[:1]
+            dt, fl = gen_flags2(r, len(a))
+            if not z and r.random() < 0.04:
+                fl = fl + fl[:1] + [fl[0]]                      # a flag array longer than needed is read by position only
+                fam += "/long-flag"
+            cs.append({"kind": kind, "a": a, "flag": fl, "fdtype": dt, "values": r.choice([True, False, False, None]), "zero_d": z,
+                       "family": ("zero-d/" if z else "") + fam})
+        return cs
+
+    def impl(self, c):
+        import numpy as np
+        import esutil.numpy_util as nu
+        arr = self._arr(c)
+        fl = flags_np2(c["fdtype"], c["flag"])
+        if c["zero_d"]:
+            fl = np.array(fl[0])
+        s = [int(i) for i in np.atleast_1d(arr.argsort())]
+
+        def f():
+            res = nu.rem_dup(arr, fl) if c["values"] is None else nu.rem_dup(arr, fl, values=c["values"])
+            vals = None
+            if isinstance(res, tuple):
+                res, vals = res
+                vals = from_np(c["kind"], np.atleast_1d(vals))
+            scalar = not isinstance(res, np.ndarray)
+            return {"scalar": scalar, "idx": [int(i) for i in np.atleast_1d(res)], "vals": vals}
+        return {"argsort": s, "result": core.guarded(f)}
+
+    def term(self, c, out):
+        k = c["kind"]
+        pr = lambda o: "(%s, %s, %s)" % (cbool(o["scalar"]), cnats(o["idx"]),   # noqa
+                                         "None" if o["vals"] is None else "(Some %s)" % cvals(k, o["vals"]))
+        return "%s_rem_dup_call %s %s %s %s %s" % (pfx(k), cnats(out["argsort"]), cvals(k, c["a"]), clist(flag_keys2(c), cz),
+                                                   cbool(bool(c["values"])), cres(out["result"], pr))
+
+    def nontrivial(self, c, out):
+        # a value repeated >= 3 times not starting at index 0 (the running maximum matters)
+        ks = [key(c["kind"], v) for v in c["a"]]
+        return any(ks.count(k) >= 3 and ks.index(k) > 0 for k in set(ks))
+
+
+ENTRIES = [Match(), MatchMulti(), MatchForms(), Unique(), UniqueValues(), UniqueCall(), RemDup(), RemDupValues(), RemDupCall()]
 
 TRUSTED = [
     "Coq 8.16.1 kernel (coqc, vm_compute; no native_compute); all C06 theorems are closed under the global context (no axioms)",
-    "hand-written model C06/Model.v of numpy_util.match/match_multi/unique/rem_dup, generic over a decidable total order; tied to /repo "
-    "by the correspondence run on every check (differential testing, bounded by the generators)",
-    "modelled, not verified: numpy fancy indexing, np.where, ==, max, np.unique(a).size (as 'has a repeated value'), np.searchsorted(side=left) "
+    "hand-written model C06/Model.v + Forms.v of numpy_util.match/match_multi/unique/rem_dup, generic over a decidable total order; tied to "
+    "the tree under check (a) by C06/Gen.v, regenerated from esutil/numpy_util.py on every run, and the theorems C06_tie_* / C06_source_* "
+    "(skeleton at the regenerated parameters = model), (b) by the correspondence run (differential testing, bounded by the generators)",
+    "translator harness/props/c06_translate.py (python ast, line-by-line template match of the four function bodies, fail-closed): trusted "
+    "to print into Gen.v the operators, constants, polarities, defaults, exception classes it read; Skel.v is a hand-written reading of what "
+    "each of them means (the statements whose shape is fixed by the template are modelled by Model.v, not regenerated)",
+    "modelled, not verified: numpy fancy indexing, np.where, ==, max, np.unique(a).size (number of distinct values), np.searchsorted(side=left) "
     "as the number of strictly smaller elements of a SORTED array (presorted=True is therefore only modelled for a sorted first array), "
-    "np.atleast_1d on scalars (the harness passes the scalar, the model gets a one-element array)",
+    "np.atleast_1d (every argument form becomes the 1-d array of its elements), numpy's promotion of mixed numeric kinds (exact: mixed pairs "
+    "are generated with integers within +-2^53), U == S elementwise False and the ASCII cast of bytes in searchsorted (mixed string pairs "
+    "are generated with ASCII bytes only)",
     "assumed with run-time contract monitor: numpy argsort returns a sorting permutation (checked on every unique/rem_dup case by the verified "
     "sorting_perm_check; the harness obtains it by calling arr.argsort() on the same array); for match the model computes its own argsort "
     "(unique on distinct values)",
     "element encodings of the harness: floats enter Coq through a monotone embedding into Z (IEEE bit pattern, -0.0 = 0.0, no NaN), "
-    "strings as code-point lists without NUL (numpy's comparison of padded strings is lexicographic on code points)",
+    "strings as code-point lists without NUL (numpy's comparison of padded strings is lexicographic on code points), bytes-vs-unicode pairs "
+    "as (kind, code points)",
     "python harness (harness/props/C06.py), literal printers, coqc evaluating Exec.v verdict terms",
 ]
+
+_Z = re.compile(r"-?\d+")
+
+
+def _zlist(txt):
+    return [int(x) for x in _Z.findall(txt.replace("%Z", ""))]
+
+
+GEN_FUNS = {
+    "match": "(fun a1 a2 => match_g zltb zeqb gen_match ClsNum (mp_presorted_default gen_match) (argsort zltb a1) a1 a2)",
+    "match_str": "(fun a1 a2 => match_g zltb zeqb gen_match ClsStr false (argsort zltb a1) a1 a2)",
+    "match_pre": "(when_sorted (fun a1 a2 => match_g zltb zeqb gen_match ClsNum true (argsort zltb a1) a1 a2))",
+    "match_multi": "(fun a1 a2 => match_multi_g zltb zeqb gen_match_multi gen_match ClsNum true (argsort zltb a1) a1 a2)",
+    "unique": "(fun s a => match unique_call_g zltb zeqb gen_unique false s a (up_values_default gen_unique) with "
+              "Ok (UIdx k) => Ok k | Ok (UVals _) => Err EOther | Err e => Err e end)",
+    "unique_values": "(fun s a => match unique_call_g zltb zeqb gen_unique false s a true with "
+                     "Ok (UVals v) => Ok v | Ok (UIdx _) => Err EOther | Err e => Err e end)",
+    "rem_dup": "(fun s a fl => match rem_dup_call_g zltb zeqb gen_rem_dup s a fl (rp_values_default gen_rem_dup) with "
+               "Ok (_, k, _) => Ok k | Err e => Err e end)",
+}
+
+
+def gen_sweeps(ctx, big):
+    """The regenerated definitions against the specification INSIDE Coq over a small scope (DESIGN 5.2): every array over a
+    3-letter alphabet (5 for match: the first array needs distinct values) up to length 4 (quick) / 5 (thorough).  A failing
+    input of the skeleton at Gen.v becomes a case of the real implementation (EXTRA)."""
+    km, nm, nd = (5, 5, 5) if big else (4, 4, 4)
+    terms = [("match", "match_cex_f %s %d %d %d" % (GEN_FUNS["match"], km, nm, 4 if big else 3)),
+             ("match", "match_cex_f %s 3 %d %d" % (GEN_FUNS["match"], nm, nm)),
+             ("match", "match_cex_f %s 3 %d %d" % (GEN_FUNS["match_str"], nm, nm)),
+             ("match", "match_cex_f %s 3 %d %d" % (GEN_FUNS["match_pre"], nm, nm)),
+             ("match", "match_cex_f %s 3 %d %d" % (GEN_FUNS["match_multi"], nm, nm)),
+             ("unique", "unique_cex_f %s 3 %d" % (GEN_FUNS["unique"], nd + 1)),
+             ("unique", "if unique_values_sweep_f %s 3 %d then [] else [0]" % (GEN_FUNS["unique_values"], nd)),
+             ("rem_dup", "rem_dup_cex_f %s 3 3 %d" % (GEN_FUNS["rem_dup"], nd))]
+    try:
+        vals = core.coq_eval(ctx.work + "/gensweep", PRE_GEN, [t for _, t in terms], ty="list Z", shard=1, tag="gensweep")
+    except core.CoqEvalError as e:
+        ctx.obligation("small-scope evaluation of the regenerated definitions (Skel.v at Gen.v)", False, str(e)[-400:])
+        ctx.violation("the regenerated definitions (Skel.v at Gen.v) do not evaluate in Coq",
+                      {"kind": "gen-sweep", "error": str(e)[-2000:]}, found_input=False)
+        return
+    names = ["match default keywords, 5 letters", "match 3 letters", "match string class (always clamped)", "match presorted=True (sorted first array)",
+             "match_multi presorted=True", "unique", "unique values=True", "rem_dup (flags over 3 values)"]
+    for (what, t), v, nm_ in zip(terms, vals, names):
+        z = _zlist(v)
+        ctx.obligation("regenerated %s meets the specification on every array over a small alphabet up to length %d (vm_compute)"
+                       % (nm_, nm if what == "match" else nd), not z, "first failing input (encoded): %s" % z)
+        if not z:
+            continue
+        ctx.notes.append("the skeleton at the regenerated parameters violates the property inside Coq on %s (entry %s); "
+                         "the same input is run on the real implementation" % (z, what))
+        if what == "match":
+            n1 = z[0]
+            EXTRA["match"].append({"kind": "i8", "a1": z[1:1 + n1], "a2": z[1 + n1:], "presorted": False, "scalar1": False,
+                                   "scalar2": False, "native": True, "family": "gen-counterexample"})
+            EXTRA["match"].append({"kind": "U", "a1": [[97 + x] for x in z[1:1 + n1]], "a2": [[97 + x] for x in z[1 + n1:]], "presorted": False,
+                                   "scalar1": False, "scalar2": False, "native": True, "family": "gen-counterexample"})
+            if z[1:1 + n1] == sorted(z[1:1 + n1]):
+                EXTRA["match"].append({"kind": "i8", "a1": z[1:1 + n1], "a2": z[1 + n1:], "presorted": True, "scalar1": False,
+                                       "scalar2": False, "native": True, "family": "gen-counterexample"})
+        elif what == "unique":
+            if len(z) > 1 or "unique_cex" in t:
+                EXTRA["unique"].append({"kind": "i8", "a": z, "family": "gen-counterexample"})
+        else:
+            n = z[0]
+            EXTRA["rem_dup"].append({"kind": "i8", "a": z[1:1 + n], "flag": z[1 + n:], "family": "gen-counterexample"})
 
 
 def run(ctx, replay=None):
     ctx.rule = ("corpus + hand-picked + seeded random cases per entry point over int (8 widths, signed/unsigned, small and extreme ranges), float "
-                "(f8/f4, negatives, +-0, +-inf, denormals) and byte/unicode string arrays; every case runs on the real esutil and inside Coq "
-                "(model = implementation?  verified property checker on the implementation's output).  non-trivial: match - some but not all "
-                "probes match and the first array is not already sorted; unique/rem_dup - some repeated value whose first occurrence is not "
-                "index 0.  distinct by canonical JSON.")
+                "(f8/f4, negatives, +-0, +-inf, denormals) and byte/unicode string arrays; argument forms (array, list, python/numpy scalar, 0-d), "
+                "mixed kinds (int/float, widths, signedness within +-2^53, bytes against unicode), empty arrays, omitted keywords; every case "
+                "runs on the real esutil and inside Coq (model = implementation?  verified property checker on the implementation's output).  "
+                "non-trivial: match - some but not all probes match and the first array is not already sorted; match_forms - a mixed pair, "
+                "a non-array form or an omitted keyword with some but not all probes matching; unique/rem_dup - some repeated value whose "
+                "first occurrence is not index 0 (rem_dup_call: repeated >= 3 times).  distinct by canonical JSON.")
     ctx.trusted = TRUSTED
-    core.proof_step(ctx, "C06", core.ALLOW_DISCRETE)
+    # 1. decision structure and constants of the four functions from the source of the tree under check
+    params = None
+    try:
+        params, changed = c06_translate.regenerate(ctx.impl, core.COQDIR)
+        ctx.obligation("C06/Gen.v regenerated from esutil/numpy_util.py (guards, operators, searchsorted side, clamp, equality filters, "
+                       "presorted branches, unique start element, rem_dup tie rule, defaults, exception classes)%s"
+                       % (" [changed]" if changed else ""), True)
+        diffs = c06_translate.differences(params)
+        if diffs:
+            ctx.notes.append("regenerated parameters that differ from the modelled ones: " + "; ".join(diffs))
+    except c06_translate.TranslateError as e:
+        c06_translate.write_reference(core.COQDIR)      # never keep the parameters of a tree checked earlier
+        diffs = []
+        ctx.obligation("C06/Gen.v regenerated from esutil/numpy_util.py", False, str(e))
+        ctx.violation("translation of match/match_multi/unique/rem_dup failed (fail-closed): %s" % e,
+                      {"kind": "translation", "error": str(e),
+                       "no_longer_checks": "tie of C06/Gen.v (C06_tie_*, C06_source_*) to esutil/numpy_util.py"}, found_input=False)
+    # 2. theorems (C06_tie_* / C06_source_* are re-checked against the regenerated Gen.v)
+    built = core.proof_step(ctx, "C06", core.ALLOW_DISCRETE)
+    if not built:
+        # the model, the checkers and the skeletons do not depend on the tie: keep looking for a failing input
+        ok, _log = core.coq_make(["theories/C06/Exec.vo", "theories/C06/Gen.vo"])
+        if not ok:
+            return
+    # 3. the regenerated definitions against the specification inside Coq (small scope); failing inputs go to the real code
+    if replay is None:
+        gen_sweeps(ctx, big=not ctx.quick())
     if not ctx.quick() and replay is None:
-        vals = core.coq_eval(ctx.work + "/sweep", PRE,
-                             ["if unique_sweep 3 6 then 0 else 1", "if match_sweep 4 4 4 then 0 else 1"], tag="sweep")
+        terms = ["if unique_sweep 3 6 then 0 else 1", "if match_sweep 4 4 4 then 0 else 1",
+                 "if sweep_match_model 3 5 5 then 0 else 1", "if sweep_match_model 5 5 3 then 0 else 1",
+                 "if sweep_dedup_model 3 3 6 then 0 else 1", "if sweep_dedup_model 4 3 5 then 0 else 1"]
+        vals = core.coq_eval(ctx.work + "/sweep", PRE, terms, shard=1, tag="sweep")
         ctx.obligation("unique_sweep 3 6 = true (vm_compute: every array over 3 values, length <= 6)", vals[0] == "0")
         ctx.obligation("match_sweep 4 4 4 = true (vm_compute: every pair of arrays over 4 values, lengths <= 4)", vals[1] == "0")
+        ctx.obligation("sweep_match_model 3 5 5 = true (match, always-clamp path, presorted=True, match_multi: every pair of arrays over a "
+                       "3-letter alphabet, lengths <= 5, checker incl. the grouping reading)", vals[2] == "0")
+        ctx.obligation("sweep_match_model 5 5 3 = true (5-letter alphabet: first arrays of up to 5 distinct values, probes up to length 3)",
+                       vals[3] == "0")
+        ctx.obligation("sweep_dedup_model 3 3 6 = true (unique, unique(values=True), rem_dup with every flag array over 3 values: every "
+                       "array over a 3-letter alphabet, length <= 6)", vals[4] == "0")
+        ctx.obligation("sweep_dedup_model 4 3 5 = true (4-letter alphabet, length <= 5)", vals[5] == "0")
         ctx.exhaustive = True
     differential(ctx, PRE, ENTRIES, replay)
